@@ -8,7 +8,7 @@
 (* predicates are judged only there.                                          *)
 EXTENDS TraceKit
 
-VARIABLES l, viol, cnt, seen, nils
+VARIABLES pos, viol, cnt, seen, nils
 
 Preds(e) == {
    P("C24", "CandidateOnce", e.ev = "emit" /\ e.c = "cand", e.id \notin seen),
@@ -18,20 +18,20 @@ Preds(e) == {
    P("C24", "NilReported", e.ev = "end" /\ e.quiesced /\ e.flushes > 0, nils >= 1)
   }
 
-Init == l = 1 /\ viol = {} /\ cnt = EmptyCount /\ seen = {} /\ nils = 0
+Init == pos = 1 /\ viol = {} /\ cnt = EmptyCount /\ seen = {} /\ nils = 0
 
 Step ==
-  /\ l <= Len(Trace)
-  /\ LET e == Trace[l] IN
+  /\ pos <= Len(Trace)
+  /\ LET e == Trace[pos] IN
        IF e.ev = "reset" THEN seen' = {} /\ nils' = 0 /\ UNCHANGED <<viol, cnt>>
        ELSE LET ps == Preds(e) IN
-            /\ viol' = Merge(viol, Failures(ps, e, l))
+            /\ viol' = Merge(viol, Failures(ps, e, pos))
             /\ cnt'  = Count(cnt, ps)
             /\ seen' = IF e.ev = "emit" /\ e.c = "cand" THEN seen \cup {e.id} ELSE seen
             /\ nils' = IF e.ev = "emit" /\ e.c = "nil" THEN nils + 1 ELSE nils
-  /\ l' = l + 1
+  /\ pos' = pos + 1
 
-Done == l = Len(Trace) + 1 /\ UNCHANGED <<l, viol, cnt, seen, nils>>
+Done == pos = Len(Trace) + 1 /\ UNCHANGED <<pos, viol, cnt, seen, nils>>
 Next == Step \/ Done
-Rep  == Report(l, viol, cnt)
+Rep  == Report(pos, viol, cnt)
 =============================================================================
